@@ -106,7 +106,8 @@ Chk == [i \in 1..Len(SortedIds) |->
 \* ids of the known roots whose content equals that of r (two terms may share a hash only then)
 SameAsIn(cont, ord, r) == {IdIn(ord, x) : x \in {y \in DOMAIN cont : cont[y] = cont[r]}}
 
-Emit(rec) == act' = IF EmitOn THEN ToJson(rec) ELSE rec.op
+\* (the record is only built when EmitOn: operator arguments are evaluated on demand)
+Emit(op, rec) == act' = IF EmitOn THEN ToJson(rec) ELSE op
 
 Init == /\ content = (EmptyRoot :> EmptyMap)
         /\ committed = {EmptyRoot}
@@ -141,7 +142,7 @@ Set(p, ws, h) ==
      /\ chainAt' = [chainAt EXCEPT ![h] = r] /\ tipH' = MaxI(tipH, h)
      /\ UNCHANGED pending
      /\ nops' = nops + 1
-     /\ Emit([op |-> "Set", parent |-> Id(p), writes |-> ws, height |-> h,
+     /\ Emit("Set", [op |-> "Set", parent |-> Id(p), writes |-> ws, height |-> h,
               ret |-> IdIn(order', r), eq |-> SameAsIn(content', order', r), chk |-> Chk'])
 
 \* pending update (EventStoreMemSet): nothing committed changes
@@ -154,7 +155,7 @@ MemSet(p, ws, h) ==
      /\ pending' = pending \cup {r}
      /\ UNCHANGED <<committed, chainAt, tipH>>
      /\ nops' = nops + 1
-     /\ Emit([op |-> "MemSet", parent |-> Id(p), writes |-> ws, height |-> h,
+     /\ Emit("MemSet", [op |-> "MemSet", parent |-> Id(p), writes |-> ws, height |-> h,
               ret |-> IdIn(order', r), eq |-> SameAsIn(content', order', r), chk |-> Chk'])
 
 Commit(r) ==
@@ -166,7 +167,7 @@ Commit(r) ==
   /\ tipH' = MaxI(tipH, heightOf[r])
   /\ UNCHANGED <<content, heightOf, order>>
   /\ nops' = nops + 1
-  /\ Emit([op |-> "Commit", root |-> Id(r), ret |-> "ok", chk |-> Chk'])
+  /\ Emit("Commit", [op |-> "Commit", root |-> Id(r), ret |-> "ok", chk |-> Chk'])
 
 Rollback(r) ==
   /\ "Rollback" \in Ops /\ nops < MaxOps
@@ -174,7 +175,7 @@ Rollback(r) ==
   /\ pending' = pending \ {r}
   /\ UNCHANGED <<content, committed, heightOf, chainAt, tipH, order>>
   /\ nops' = nops + 1
-  /\ Emit([op |-> "Rollback", root |-> Id(r), ret |-> "ok", chk |-> Chk'])
+  /\ Emit("Rollback", [op |-> "Rollback", root |-> Id(r), ret |-> "ok", chk |-> Chk'])
 
 \* Commit / Rollback of a root that is not pending: refused, nothing changes
 CommitNP(r) ==
@@ -182,14 +183,14 @@ CommitNP(r) ==
   /\ r \in Known \ pending
   /\ UNCHANGED <<content, committed, pending, heightOf, chainAt, tipH, order>>
   /\ nops' = nops + 1
-  /\ Emit([op |-> "Commit", root |-> Id(r), ret |-> "notfound", chk |-> Chk'])
+  /\ Emit("Commit", [op |-> "Commit", root |-> Id(r), ret |-> "notfound", chk |-> Chk'])
 
 RollbackNP(r) ==
   /\ "RollbackNP" \in Ops /\ nops < MaxOps
   /\ r \in Known \ pending
   /\ UNCHANGED <<content, committed, pending, heightOf, chainAt, tipH, order>>
   /\ nops' = nops + 1
-  /\ Emit([op |-> "Rollback", root |-> Id(r), ret |-> "notfound", chk |-> Chk'])
+  /\ Emit("Rollback", [op |-> "Rollback", root |-> Id(r), ret |-> "notfound", chk |-> Chk'])
 
 \* close and reopen the database (restart): pending updates are gone, committed state stays
 Reopen ==
@@ -197,19 +198,19 @@ Reopen ==
   /\ pending' = {}
   /\ UNCHANGED <<content, committed, heightOf, chainAt, tipH, order>>
   /\ nops' = nops + 1
-  /\ Emit([op |-> "Reopen", ret |-> "ok", chk |-> Chk'])
+  /\ Emit("Reopen", [op |-> "Reopen", ret |-> "ok", chk |-> Chk'])
 
 Get(r, k) ==
   /\ "Get" \in Ops
   /\ r \in committed
   /\ UNCHANGED <<content, committed, pending, heightOf, chainAt, tipH, order, nops>>
-  /\ Emit([op |-> "Get", root |-> Id(r), key |-> k, ret |-> content[r][k]])
+  /\ Emit("Get", [op |-> "Get", root |-> Id(r), key |-> k, ret |-> content[r][k]])
 
 Iter(r, lo, hi, asc, incl, lim) ==
   /\ "Iter" \in Ops
   /\ r \in committed
   /\ UNCHANGED <<content, committed, pending, heightOf, chainAt, tipH, order, nops>>
-  /\ Emit([op |-> "Iter", root |-> Id(r), lo |-> lo, hi |-> hi, asc |-> asc, incl |-> incl, lim |-> lim,
+  /\ Emit("Iter", [op |-> "Iter", root |-> Id(r), lo |-> lo, hi |-> hi, asc |-> asc, incl |-> incl, lim |-> lim,
            ret |-> IterResult(r, lo, hi, asc, incl, lim)])
 
 \* "Redo": compute an update again that was computed before (same parent, same writes, any
